@@ -26,7 +26,8 @@ Admissible local `n = e` (statement D at position i of block B):
   * a right-hand side that contains a call is evaluated once (or consists of calls known to be free of effects: sorted, len,
     numpy.*, ...) and keeps its place in the order of evaluation: all reads of n sit in ONE statement S of
     B, only call-free assignments stand between D and S, n is not read inside a loop body or comprehension element of S, and when
-    S is compound (if/for/with) its header reads n (so the call is still evaluated before the body is entered).  Ordering rules
+    S is compound (if/for/with) its header reads n (so the call is still evaluated before the body is entered), and no other call
+    of S finishes before the first read of n (`with fork(k), wrap(rng)` keeps `rng = range(k)` in front of the fork).  Ordering rules
     (lock before load, test before use) therefore see the same order in every form.
 Assumption (stated in DESIGN.md): a call-free right-hand side (attribute/subscript chain) denotes the same value at D and at
 the reads unless one of the mutations above is visible in the function; evaluation order inside one statement is not tracked.
@@ -159,6 +160,9 @@ def _callee_last(call):
 def _expr_class(e):
     '''('proj' | 'call' | 'oneshot' | None): None = never substitute.'''
     cls = 'proj'
+    from .astutil import empty_container
+    if empty_container(e):
+        return None     # an empty container bound to a name is there to be filled (possibly by a callee)
     for node in ast.walk(e):
         if isinstance(node, (ast.Yield, ast.YieldFrom, ast.Await, ast.NamedExpr)):
             return None
@@ -390,6 +394,8 @@ def _inline_function(fn, flags):
                         continue
                     if _read_in_repetition([S], name):
                         continue
+                    if _call_completes_before_read(hdr if hdr is not None else [S], name):
+                        continue    # e.g. `with fork(n), wrap(rng)`: rng = range(n) must stay in front of the fork
                 free, bound = _free_names(value)
                 lastread = max(k for k, st in enumerate(rest) if _reads(st, name))
                 mutated = _mutated_names(rest[:lastread + 1])      # up to and including the last statement that reads n
@@ -425,6 +431,25 @@ def _all_pure(e):
         elif isinstance(n, (ast.ListComp, ast.SetComp, ast.DictComp, ast.GeneratorExp)):
             pass
     return True
+
+
+def _call_completes_before_read(exprs, name):
+    '''Does some call finish (textually) before the first read of `name` in the given expressions/statement?  Then moving a call into the
+    place of that read would change the order of the two.'''
+    first = None
+    for e in exprs:
+        for n in ast.walk(e):
+            if isinstance(n, ast.Name) and n.id == name and isinstance(n.ctx, ast.Load):
+                pos = (n.lineno, n.col_offset)
+                if first is None or pos < first:
+                    first = pos
+    if first is None:
+        return False
+    for e in exprs:
+        for n in ast.walk(e):
+            if isinstance(n, (ast.Call, ast.Yield, ast.YieldFrom, ast.Await)) and getattr(n, 'end_lineno', None) is not None and (n.end_lineno, n.end_col_offset) <= first:
+                return True
+    return False
 
 
 def _reads(node, name):
